@@ -114,7 +114,9 @@ def typings(kind):
 
 
 def run_rule(args):
-    kind, mode, typing = args
+    kind, mode, typing = args[:3]
+    seeds = args[3] if len(args) > 3 else None
+    frontier = args[4] if len(args) > 4 else None
     import functional_algorithms.rewrite as R
     from functional_algorithms.expr import Expr
 
@@ -125,14 +127,15 @@ def run_rule(args):
     t0 = time.time()
 
     def build_and_run(w):
-        ops = tuple(new_hole(w, t) for t in typing)
+        w.make_sem = lambda: make_sem(w)
+        ops = tuple(new_hole(w, t, str(i)) for i, t in enumerate(typing))
         e = Expr(w.ctx, kind, ops)
         rw = R.Rewriter()
         out = getattr(rw, kind)(e)
         return e, out
 
     try:
-        for po in explore(build_and_run, mode, uni, named, allow_alias=alias):
+        for po in explore(build_and_run, mode, uni, named, allow_alias=alias, seeds=seeds, frontier=frontier):
             npaths += 1
             sig = po.sig()
             base = "C04/rule/%s/%s/%s/%s" % (kind, "".join(typing), mode, sig)
@@ -160,6 +163,8 @@ def run_rule(args):
         results.append(dict(id="C04/rule/%s/%s/%s/engine-unsupported" % (kind, "".join(typing), mode), ok=None, text="unsupported: %s" % u, claimed=False))
     except Exception:
         results.append(dict(id="C04/rule/%s/%s/%s/engine-crash" % (kind, "".join(typing), mode), ok=core.ERROR, text=traceback.format_exc()[-1500:]))
+    if frontier is not None:
+        return (kind, mode, typing), results, npaths, time.time() - t0, list(explore.open)
     return (kind, mode, typing), results, npaths, time.time() - t0
 
 
@@ -182,16 +187,18 @@ def run_inference(args):
     t0 = time.time()
 
     def build_and_run(w):
+        w.make_sem = lambda: make_sem(w)
         if kind == "constant":
-            h = new_hole(w, "F")
+            h = new_hole(w, "F", "0")
             # force the refinement of the hole into each constant alternative
             k = h.kind
             if k != "constant":
                 raise Prune()
             e = h
         else:
-            ops = tuple(new_hole(w, t) for t in typing)
+            ops = tuple(new_hole(w, t, str(i)) for i, t in enumerate(typing))
             e = Expr(w.ctx, kind, ops)
+        w.real_infer_node = e
         ans = getattr(e, "_is_" + prop)
         if isinstance(ans, symrun.SymBool):
             ans = bool(ans)
@@ -316,6 +323,8 @@ def jobs_rules(tier):
     for kind in rule_methods():
         for typing in typings(kind):
             for mode in MODES:
+                if tier == "quick" and kind in HEAVY and mode != "real":
+                    continue  # the FP passes of the comparison/select/logical rules run in the thorough tier
                 out.append((kind, mode, tuple(typing)))
     return out
 
@@ -333,8 +342,13 @@ def jobs_infer(tier):
 
 def _dispatch(job):
     if job[0] == "rule":
-        return ("rule",) + run_rule(job[1])
-    return ("infer",) + run_inference(job[1])
+        return ("rule",) + tuple(run_rule(job[1]))
+    if job[0] == "split":
+        return ("split",) + tuple(run_rule(job[1] + (None, 48)))
+    return ("infer",) + tuple(run_inference(job[1]))
+
+
+HEAVY = set(["lt", "le", "gt", "ge", "eq", "ne", "select", "logical_or", "logical_and"])
 
 
 def build(tier, only=None):
@@ -363,8 +377,19 @@ def build(tier, only=None):
         jobs = [j for j in jobs if only in repr(j)]
     ctx = mp.get_context("fork")
     with ctx.Pool(core.NPROC) as pool:
-        res = pool.map(_dispatch, jobs, chunksize=1)
+        # heavy rules are first expanded breadth-first to ~48 open sub-trees each, which then become jobs
+        heavy = [j for j in jobs if j[0] == "rule" and j[1][0] in HEAVY]
+        light = [j for j in jobs if not (j[0] == "rule" and j[1][0] in HEAVY)]
+        split = pool.map(_dispatch, [("split", j[1]) for j in heavy], chunksize=1)
+        res = []
+        shard_jobs = []
+        for what, key, results, npaths, dt, open_ in split:
+            res.append(("rule", key, results, npaths, dt))
+            for i in range(0, len(open_), 3):
+                shard_jobs.append(("rule", key + (open_[i : i + 3],)))
+        res += pool.map(_dispatch, shard_jobs + light, chunksize=1)
     stats = {}
+    explored = {}
     for what, key, results, npaths, dt in res:
         fnname = ("rewrite.Rewriter.%s" % key[0]) if what == "rule" else ("expr.Expr._is_%s" % key[3])
         rep.under_contract(fnname, "denotation preserved on every path" if what == "rule" else "answer sound for every kind case")
@@ -381,7 +406,11 @@ def build(tier, only=None):
             any_claimed = any_claimed or claimed
             rep.add(o)
         # a method all of whose paths return None still is "under contract": record the path count as an obligation
-        rep.add(core.decided("C04/%s/%s/%s/explored" % (what, "/".join(str(k) for k in key if not isinstance(k, tuple)), "".join(key[2])), PROP, True, functions=(fnname,), text="%d paths explored, every path either returned None or produced an obligation" % npaths, detail=dict(paths=npaths, seconds=round(dt, 2))))
+        explored.setdefault((what, key[:4] if what == "infer" else key[:3], fnname), [0, 0.0])
+        explored[(what, key[:4] if what == "infer" else key[:3], fnname)][0] += npaths
+        explored[(what, key[:4] if what == "infer" else key[:3], fnname)][1] += dt
+    for (what, key, fnname), (npaths, dt) in explored.items():
+        rep.add(core.decided("C04/%s/%s/%s/explored" % (what, "/".join(str(k) for k in key if not isinstance(k, tuple)), "".join(key[2])), PROP, npaths > 0, functions=(fnname,), text="%d paths explored, every path either returned None or produced an obligation" % npaths, detail=dict(paths=npaths, seconds=round(dt, 2))))
     rep.notes.append("paths per function: " + "; ".join("%s=%d" % (k, v[0]) for k, v in sorted(stats.items())))
     # composition lemma: local contracts => whole rewriter (congruence of DENOTE + transitivity), over uninterpreted [[.]]
     D = z3.DeclareSort("Expr")
